@@ -180,6 +180,8 @@ structure State where
   gErrored : List Item := []            -- digester raised: reported in a DigestResult or logged by _auto_digest
   gEmDropped : List Item := []          -- digester raised during the emergency digest: logged there
   gExpired : List Item := []            -- removed by autophagy
+  gPending : List (Nat × Item) := []    -- popped by the digest call of thread `tid`, its loop has not reached it yet
+                                        -- (only the concurrent semantics below ever puts anything here)
 
 def State.ingested (s : State) : Nat := s.items.length
 
@@ -238,7 +240,8 @@ def digestCore (cfg : Cfg) (s : State) (n : Nat) (viaAuto : Bool) : State × Dig
      gDigested := s.gDigested ++ oks
      gErrored := s.gErrored ++ errs
      gEmDropped := s.gEmDropped
-     gExpired := s.gExpired },
+     gExpired := s.gExpired
+     gPending := s.gPending },
    ⟨oks.length, errs.length, recy⟩)
 
 /-- `_emergency_digest`: the oldest half, results discarded, failures only logged. -/
@@ -264,7 +267,8 @@ def emergency (cfg : Cfg) (s : State) : State :=
       gDigested := s.gDigested ++ oks
       gErrored := s.gErrored
       gEmDropped := s.gEmDropped ++ errs
-      gExpired := s.gExpired }
+      gExpired := s.gExpired
+      gPending := s.gPending }
 
 /-- the part of `ingest` before the auto-digest test -/
 def enqueue (cfg : Cfg) (s : State) (id : Nat) (ty : WType) (content : Nat) : State :=
@@ -324,6 +328,61 @@ def run (cfg : Cfg) : State → List Op → State
   | s, op :: ops => run cfg (step cfg s op).1 ops
 
 def init : State := {}
+
+/-! ### the same object used by several threads, at the level of its atomic actions
+
+  `ingest` runs entirely under the (re-entrant) lock, `autophagy`'s queue update too; `digest` is *two* kinds of
+  action: the pop under the lock, then one loop iteration per popped item outside the lock (a digester call and
+  single-line counter updates), interleaved arbitrarily with the actions of other threads.  (E3 checks the facts this
+  rests on: `_queue` is only written under the lock; outside it only the two counters and the bin are written.)
+  Simplifications: an error is counted as reported when its iteration runs (really: when the call returns the
+  `DigestResult`), and keys go to the bin per item (really: via the call-local dict when the call ends). -/
+
+inductive Act where
+  | op (o : Op)                         -- ingest / autophagy / clock / clear bin / a whole uninterrupted digest
+  | pop (tid : Nat) (k : Option Int)    -- locked region of `digest(k)` called by thread `tid`
+  | iter (tid : Nat)                    -- next loop iteration of thread `tid`'s running digest call
+  deriving Repr, DecidableEq
+
+/-- first pending item of thread `tid`, and the pending list without it -/
+def takeFirst (tid : Nat) : List (Nat × Item) → Option (Item × List (Nat × Item))
+  | [] => none
+  | (t, it) :: r =>
+    if t = tid then some (it, r)
+    else match takeFirst tid r with
+      | none => none
+      | some (x, r') => some (x, (t, it) :: r')
+
+/-- one iteration of `digest`'s loop on item `it` -/
+def iterItem (cfg : Cfg) (s : State) (it : Item) (rest : List (Nat × Item)) : State :=
+  if succeeds cfg it then
+    { queue := s.queue, clock := s.clock, digested := s.digested + 1
+      recycled := if (keysOf cfg it).isEmpty then s.recycled else s.recycled + 1
+      bin := dictUpdate s.bin ((keysOf cfg it).map fun k => (k, it)), dead := s.dead
+      toxicLog := if callsToxic cfg it then s.toxicLog ++ [it] else s.toxicLog
+      reported := s.reported, autoLogged := s.autoLogged, emLogged := s.emLogged, expiredRet := s.expiredRet
+      items := s.items, gDigested := s.gDigested ++ [it], gErrored := s.gErrored, gEmDropped := s.gEmDropped
+      gExpired := s.gExpired, gPending := rest }
+  else
+    { queue := s.queue, clock := s.clock, digested := s.digested, recycled := s.recycled, bin := s.bin, dead := s.dead
+      toxicLog := if callsToxic cfg it then s.toxicLog ++ [it] else s.toxicLog
+      reported := s.reported + 1, autoLogged := s.autoLogged, emLogged := s.emLogged, expiredRet := s.expiredRet
+      items := s.items, gDigested := s.gDigested, gErrored := s.gErrored ++ [it], gEmDropped := s.gEmDropped
+      gExpired := s.gExpired, gPending := rest }
+
+def act (cfg : Cfg) (s : State) : Act → State
+  | .op o => (step cfg s o).1
+  | .pop tid k =>
+    let n := sliceCount s.queue.length k
+    { s with queue := s.queue.drop n, gPending := s.gPending ++ (s.queue.take n).map fun it => (tid, it) }
+  | .iter tid =>
+    match takeFirst tid s.gPending with
+    | none => s
+    | some (it, rest) => iterItem cfg s it rest
+
+def runActs (cfg : Cfg) : State → List Act → State
+  | s, [] => s
+  | s, a :: as => runActs cfg (act cfg s a) as
 
 /-! ### built-in digesters (what the table holds when the caller registers nothing) — keys as codes:
     1 = last_failed_input, 2 = last_parse_error, 3 = last_failure_context, 1000+c = error_count_<E c> -/
